@@ -122,11 +122,37 @@ def parse_outcome(d, extract, **kw):
         return "refused", e
 
 
+def duplicate_with_extension_name(ctx, kind, ver, name, orig, w, rng):
+    """A 2.1 object / observable name that is taken, registered once more together with a FREE extension name: refused like any other
+    duplicate, the holder of the name untouched, and the extension name not left behind on its own."""
+    import stix2
+    from stix2 import properties as P
+    from stix2 import registry
+    if ver != "2.1" or kind not in ("object", "observable"):
+        return
+    ext = "extension-definition--" + V.uuid_text(rng, 4)
+    dec = stix2.v21.CustomObject if kind == "object" else stix2.v21.CustomObservable
+    ctx.ev()
+    ctx.count("duplicates_with_extension_name")
+    try:
+        with warnings.catch_warnings():
+            warnings.simplefilter("ignore")
+            dec(name, [("prop_one", P.StringProperty())], extension_name=ext)(type("Body", (object,), {}))
+        ctx.violation("duplicate-registration-accepted", "second registration of %s %r (with extension_name) was accepted" % (kind, name), dict(w, name=name, extension_name=ext))
+    except family():
+        ctx.count("refusals")
+    if looks_up(kind, ver, name) is not orig or orig is None:
+        ctx.violation("existing-registration-replaced", "after a refused duplicate carrying extension_name, %r (%s) no longer maps to the original class" % (name, ver),
+                      dict(w, name=name, extension_name=ext))
+    if registry.class_for_type(ext, ver, "extensions") is not None:
+        ctx.violation("refused-registration-left-behind:extension-name", "the extension name of a refused registration stays registered", dict(w, name=name, extension_name=ext))
+
+
 def wl_history(ctx, rng, i):
     import stix2.base
     tag = "%d-%d" % (ctx.seed, i)
     model = {}
-    steps = ["fresh", "fresh", "duplicate", "builtin", "other-version", "bad-type-name", "bad-prop-name", "good-prop-name", "fresh", "duplicate", "bad-type-name", "bad-prop-name", "parse-all"]
+    steps = ["fresh", "fresh", "duplicate", "builtin", "other-version", "same-name-both-kinds-2.0", "bad-type-name", "bad-prop-name", "good-prop-name", "fresh", "duplicate", "bad-type-name", "bad-prop-name", "parse-all"]
     n = 0
     for step in steps:
         kind = rng.choice(KINDS)
@@ -179,8 +205,27 @@ def wl_history(ctx, rng, i):
                 ctx.count("refusals")
             if looks_up(kind, ver, name) is not orig:
                 ctx.violation("existing-registration-replaced", "after a refused duplicate, %r (%s) no longer maps to the original class" % (name, ver), dict(w, name=name, version=ver))
+            duplicate_with_extension_name(ctx, kind, ver, name, orig, w, rng)
             check_parse(ctx, rng, kind, ver, name, orig, dict(w, name=name, version=ver))
             ctx.nontrivial(kind, ver, step)
+        elif step == "same-name-both-kinds-2.0":
+            # 2.0 keeps objects and observables apart (an observable only ever appears inside observed-data): one name may be both,
+            # and content of either kind parses to its own class whichever kind was registered or parsed first
+            ka, kb = rng.choice([("object", "observable"), ("observable", "object")])
+            w2 = dict(w, kind="%s then %s" % (ka, kb), version="2.0")
+            try:
+                ca = register(ka, "2.0", name)
+                cb = register(kb, "2.0", name)
+            except family() as e:
+                ctx.violation("valid-registration-refused:same-name-other-kind-2.0", "registering %r as a 2.0 %s and then as a 2.0 %s raised %s: %s" % (name, ka, kb, type(e).__name__, str(e)[:120]), w2)
+                continue
+            model[("2.0", ka, name)], model[("2.0", kb, name)] = ca, cb
+            ctx.count("names_registered_as_both_kinds")
+            for k2, c2 in rng.choice([[(ka, ca), (kb, cb), (ka, ca)], [(kb, cb), (ka, ca), (kb, cb)]]):
+                if looks_up(k2, "2.0", name) is not c2:
+                    ctx.violation("registry-lookup-wrong", "class_for_type(%r, 2.0, %s) is not the registered class" % (name, CATEGORY[k2]), w2)
+                check_parse(ctx, rng, k2, "2.0", name, c2, dict(w2, parsed_kind=k2))
+            ctx.nontrivial("both-kinds", ka, step)
         elif step == "builtin":
             name = BUILTIN[kind]
             orig = looks_up(kind, ver, name)
@@ -191,6 +236,7 @@ def wl_history(ctx, rng, i):
                 ctx.count("refusals")
             if looks_up(kind, ver, name) is not orig or orig is None:
                 ctx.violation("existing-registration-replaced", "built-in %r (%s) no longer maps to its class" % (name, ver), dict(w, name=name))
+            duplicate_with_extension_name(ctx, kind, ver, name, orig, w, rng)
             if ver == "2.1" and kind in ("object", "observable"):
                 # 2.1 objects and observables are both top-level types: a name held by the one kind is taken for the other too
                 other_kind = "observable" if kind == "object" else "object"
